@@ -99,7 +99,7 @@ OWNER = {
 }
 
 
-PRIORITY = ['base', 'codec_rx', 'codec_tx', 'codec_ack', 'utils', 'context', 'handle', 'stream', 'packet_stream', 'accessors', 'opts']
+PRIORITY = ['base', 'codec_rx', 'codec_tx', 'codec_ack', 'utils', 'context', 'handle', 'stream', 'packet_stream', 'accessors', 'opts', 'roundtrip']
 _INCLUDERS = None
 
 
